@@ -21,6 +21,8 @@ type UnifyCase struct {
 	Y     *model.Type `json:"y"`
 	Z     *model.Type `json:"z,omitempty"`
 	Share bool        `json:"share,omitempty"`
+	// ShareAcross: x and y also share their common sub-terms with each other
+	ShareAcross bool `json:"shareAcross,omitempty"`
 }
 
 // refMatch: does an instantiation of the variables of pattern p exist that
@@ -193,7 +195,15 @@ func checkUnify(c *UnifyCase) *Outcome {
 	X, Y := c.X, c.Y
 	ctx := run.NewTyCtx()
 	ctx.Share = c.Share
-	x, y := ctx.To(X), ctx.To(Y)
+	// shared sub-terms: with Share, identical sub-terms inside ONE type are one
+	// *types.Type; in every other case x and y are built from separate nodes, or
+	// (ShareAcross) from one pool
+	x := ctx.To(X)
+	cy := ctx
+	if c.Share && !c.ShareAcross {
+		cy = ctx.Fork()
+	}
+	y := cy.To(Y)
 	classes := []string{}
 	nontrivial := false
 
@@ -220,7 +230,7 @@ func checkUnify(c *UnifyCase) *Outcome {
 		nontrivial = true
 	}
 	if c.Z != nil {
-		z := ctx.To(c.Z)
+		z := ctx.Fork().To(c.Z)
 		eyz, _ := guardEquals(y, z)
 		exz, _ := guardEquals(x, z)
 		if eyz != model.Equal(Y, c.Z) || exz != model.Equal(X, c.Z) {
@@ -365,7 +375,8 @@ func genUnifyCase(t *rapid.T) *UnifyCase {
 	pat := gen.TypeOpt{Depth: depth, Vars: 3, Fun: true, Maybe: true}
 	ground := gen.TypeOpt{Depth: 2, Maybe: true, Fun: false}
 	groundBot := gen.TypeOpt{Depth: 2, Maybe: true, Bot: true}
-	c := &UnifyCase{Share: rapid.IntRange(0, 3).Draw(t, "share") == 0}
+	c := &UnifyCase{Share: rapid.IntRange(0, 2).Draw(t, "share") == 0}
+	c.ShareAcross = c.Share && rapid.Bool().Draw(t, "shareAcross")
 	tuple := func(n int, o gen.TypeOpt) *model.Type {
 		xs := make([]*model.Type, n)
 		for i := range xs {
@@ -487,14 +498,14 @@ func TestC17(t *testing.T) {
 	X := enumTypes(true)
 	Yt := enumTypes(true)
 	c17.Each(t, "depth2-width2", func(yield func(*UnifyCase) bool) {
-		for _, share := range []bool{false, true} {
+		for _, share := range []int{0, 1, 2} {
 			for _, x := range X {
 				for _, y := range Yt {
 					// argument tuples only ever meet argument tuples (as in the checker)
 					if (x.K == model.TTuple) != (y.K == model.TTuple) {
 						continue
 					}
-					if !yield(&UnifyCase{X: x, Y: y, Share: share}) {
+					if !yield(&UnifyCase{X: x, Y: y, Share: share > 0, ShareAcross: share == 2}) {
 						return
 					}
 				}
